@@ -110,6 +110,39 @@ func runApiStream(o Opts, prop, oracle string, mix apiMix) error {
 			}
 		}
 	}
+	if mix.histories && o.Replay == "" {
+		// a long-lived client: after hundreds and thousands of calls a request, its route and the result are what a brand-new
+		// client with the same configuration produces for the same call and the same answer (nothing accumulates)
+		n := 2500
+		if o.Tier == "thorough" {
+			n = 40000
+		}
+		ids := []uint32{genID(r), genID(r), 405419896}
+		cfg := genCfg(r, ids)
+		old := newClient(cfg)
+		diffs := 0
+		for k := 0; k < n && diffs < 3; k++ {
+			id := ids[r.Intn(3)]
+			oc := genOp(r, r.Intn(nOps), id, false)
+			reply := genReply(r, oc.Resp, id, 0, nil)
+			sc := scriptFor(r, reply)
+			run := func(cl *clientState) (string, []Call) {
+				cl.f.script = sc
+				cl.f.calls = nil
+				res := safeCall(func() string { return oc.Run(cl.u) })
+				return res, cl.f.calls
+			}
+			r1, c1 := run(old)
+			r2, c2 := run(newClient(cfg))
+			if r1 != r2 || callsCoq(c1) != callsCoq(c2) {
+				diffs++
+				s.Fail(map[string]any{"op": oc.Name, "opcoq": oc.Coq, "cfgcoq": cfg.coq(), "script": sc.coq(), "call_number": k + 1,
+					"long_lived": r1 + " " + callsCoq(c1), "fresh": r2 + " " + callsCoq(c2)},
+					fmt.Sprintf("call %d on a long-lived client differs from the same call on a new client with the same configuration (request, route or result depends on earlier calls)", k+1))
+			}
+		}
+		s.Extra["long_history_calls"] = n
+	}
 	if prop == "C01" {
 		// SetTime carries the wall clock of the time it is given, whatever the HOST zone: arguments in other Locations whose
 		// wall clock falls into the host zone's skipped hour (and around it), under several host zones
